@@ -84,6 +84,23 @@ def check(R):
                 R.expect('P6', gs.fn, 'group mode: encrypted = true, rollover = true', a[2].get('k', {}).get('v') == 1 and a[3].get('k', {}).get('v') == 1,
                          'post_recv(ctr, true, true)', f'args {a[2]} {a[3]}', gs.where(t.bb))
             R.callers_confined('P1', 'transport::dedup::GroupCtrStore::post_recv', {'transport::session::Sessions::get_or_create_for_group_rx'})
+            # per-sender tracking: the window consulted is the one of exactly this (fabric, source node) - every use of an existing
+            # entry's window is cut by BOTH equality tests (a sender of another fabric with the same node id has its own window)
+            from common import equality_tests
+            GE = 'transport::dedup::GroupCtrEntry'
+            fab_eq, node_eq = set(), set()
+            for (bb, neg, sa_, sb_, te, fe) in equality_tests(F, gs):
+                fl_ = src_fields(sa_ | sb_)
+                if 'fab_idx:' + GE in fl_:
+                    fab_eq |= te
+                if 'src_nodeid:' + GE in fl_:
+                    node_eq |= te
+            for t in calls:
+                R.cut('P2', gs, 'judge the counter against an existing entry\'s window', [t.bb], 'the entry belongs to this fabric (entry.fab_idx == fab_idx)', fab_eq)
+                R.cut('P2', gs, 'judge the counter against an existing entry\'s window', [t.bb], 'the entry belongs to this source node (entry.src_nodeid == src_nodeid)', node_eq)
+            # ... and what was learnt about the senders is forgotten only wholesale with the session table itself (new / init / reset):
+            # removing one fabric must not re-open the window of every other fabric's senders
+            R.writers_confined('P1', 'group_ctr_store:transport::session::Sessions', {'transport::session::Sessions::new', 'transport::session::Sessions::init', 'transport::session::Sessions::reset'})
 
     # ---- c --------------------------------------------------------------------
     with R.clause('c'):
